@@ -201,7 +201,7 @@ func (g *gen) lit(t Ty) string {
 		}
 		return "false"
 	case "str":
-		ss := []string{`""`, `"a"`, `"hello"`, `"goose lang"`, `"x-y_z.0"`, `"0123456789abcdef"`, `"100%"`, `"n=%d"`, `"%s%%"`}
+		ss := []string{`""`, `"a"`, `"hello"`, `"goose lang"`, `"x-y_z.0"`, `"0123456789abcdef"`, `"100%"`, `"n=%d"`, `"%s%%"`, `"a\\b"`, `"tab\there"`, "`raw\\n`", `"caf\u00e9"`}
 		return ss[g.pick(len(ss))]
 	}
 	return g.zero(t)
